@@ -71,6 +71,18 @@ theorem PRE_CODE_UNTOUCHED (line p : Str) (rest : List (Str × Bool)) :
     preprocessAux ((line, true) :: rest) (some (p, true)) = line :: preprocessAux rest (some (line, true)) := by
   simp [preprocessAux]
 
+/-- CLOSING_INLINE_KEPT: a closing tag whose opening tag is in the same text (more tags opened than
+closed on the lines before it) is left exactly as the wrapper laid it out — not de-indented, no blank
+line put before it — so an inline pair that wrapping happened to break stays inside its list item. -/
+theorem CLOSING_INLINE_KEPT (line : Str) (rest prev acc : List Str) (h : hasUnclosedTag prev = true) :
+    fixClosingAux (line :: rest) prev acc = fixClosingAux rest (line :: prev) (line :: acc) := by
+  simp [fixClosingAux, h]
+
+/-- … and a line that is not a closing tag is never touched. -/
+theorem CLOSING_OTHER_KEPT (line : Str) (rest prev acc : List Str) (h : isClosingTag line = false) :
+    fixClosingAux (line :: rest) prev acc = fixClosingAux rest (line :: prev) (line :: acc) := by
+  simp [fixClosingAux, h]
+
 /-- SEP (separated tags stay separated) is FALSE of the code and of its model: the space between
 two tags of one family is removed by `denormalize_adjacent_tags`. -/
 theorem SEP_false :
